@@ -5,6 +5,7 @@ from checks.common import UdpCheck, gen_traffic, limits, Monitor, ConnectionStat
 from checks.c05 import open_pairs, is_guaranteed, lenclass
 from world.attacker import Attacker
 from world import refmodel as R
+from world.udpworld import accepted
 
 
 class CallbackMonitor(Monitor):
@@ -49,7 +50,7 @@ class CallbackMonitor(Monitor):
 
     # accepted incoming datagram: which of my datagrams does it acknowledge
     def post_recv(self, conn, hdr, datagram, pre, result):
-        if result is not True:
+        if not accepted(result):
             return
         w = self.w
         cn = w.conn_name(conn)
